@@ -349,12 +349,18 @@ def comprehension(self, n, env, kind):
   try:
     self.assign(g.target, it.at(k), e)
     conds = [self.truthy(self.eval(c, e)) for c in g.ifs]
-    if kind == 'dict':
-      key_v, val_v = self.eval(n.key, e), self.eval(n.value, e)
-      el_v = None
-    else:
-      el_v = self.eval(n.elt, e)
     hint = self.type_hint(n)
+    saved_hint = getattr(self, '_hint', None)
+    # literals inside the element ([] / {}) take the element sort of the comprehension's hint
+    self._hint = getattr(hint, 'elem', None) if hint is not None and kind in ('list', 'tuple', 'set') else None
+    try:
+      if kind == 'dict':
+        key_v, val_v = self.eval(n.key, e), self.eval(n.value, e)
+        el_v = None
+      else:
+        el_v = self.eval(n.elt, e)
+    finally:
+      self._hint = saved_hint
     if kind in ('list', 'tuple', 'set') :
       if hint is None:
         s0 = self.sort_of(el_v)
